@@ -233,10 +233,12 @@ def build_session(sid, seed):
         return len(objs)
 
     nofs = []
+    gtrees = []
     for _ in range(3):
         t = gen_tree(rng, modes, 0, 4)
         if degree(t) > 4:
             continue
+        gtrees.append(t)
         e = to_sympy(t, ops, modes)
         x = NOF.from_expr(e, operators=ops)
         k = add_obj(x)
@@ -293,8 +295,30 @@ def build_session(sid, seed):
     ses = dict(sid=sid, modes=[dict(kind=m["kind"], lo=m["lo"], hi=m["hi"]) for m in modes],
                states=[list(s) for s in states], strides=strides, objs=objs, trees=trees, checks=checks)
     meta = dict(modes=[(m["kind"], m["name"]) for m in modes], expressions=exprs,
-                checks=[c["kind"] for c in checks])
+                checks=[c["kind"] for c in checks], rational_with_ladder=rational_with_ladder(gtrees, modes))
     return ses, meta
+
+
+def rational_with_ladder(trees, modes):
+    """Input class of the known finding 'pole_cancellation': some expression of the session contains a
+    RATIONAL function of the number operator of a boson / ladder mode, and operators of the same mode occur
+    (their products shift the function through annihilators)."""
+    rat, gen = set(), set()
+
+    def walk(t):
+        if t[0] == "fn" and t[1] == "rat":
+            rat.add(t[2])
+        elif t[0] == "gen":
+            gen.add(t[1])
+        elif t[0] in ("mul", "add"):
+            for x in t[1]:
+                walk(x)
+        elif t[0] in ("pow", "dag"):
+            walk(t[1])
+
+    for t in trees:
+        walk(t)
+    return sorted(i for i in rat & gen if modes[i]["kind"] in ("boson", "ladder"))
 
 
 def _job(args):
@@ -335,6 +359,10 @@ def run(pid, tier, seed, replay=None):
             crashes.append(dict(sid=it[1], seed=seed, error=it[2][:700]))
     kf = common.load_known_findings()
     known = []
+    if replay is None:
+        w, wm = witness_session(10 ** 6)
+        sessions.append(w)
+        metas[w["sid"]] = wm
     for c in crashes:
         k = match_known_crash(c, kf)
         if k:
@@ -351,6 +379,10 @@ def run(pid, tier, seed, replay=None):
         for s in chunk:
             nchecks += len(s["checks"])
             if fails.get(s["sid"]):
+                k = match_known_algebra(metas[s["sid"]], fails[s["sid"]], kf)
+                if k:
+                    known.append(k)
+                    continue
                 violations.append(dict(kind="algebra", sid=s["sid"], seed=seed, meta=metas[s["sid"]],
                                        failing=[(c, ln, s["checks"][ln - 1]) for c, ln in sorted(fails[s["sid"]])][:8]))
     control = None
@@ -382,6 +414,38 @@ def run(pid, tier, seed, replay=None):
                            "identities are compared on basis states at least `margin` away from the truncation edges",
                            "coefficients are tabulated on the window of occupations (bosons 0..7, ladders -4..4)"])
     return lines, len(violations)
+
+
+def witness_session(sid):
+    """The fixed witness of the known finding 'pole_cancellation'."""
+    from pymablock.number_ordered_form import NumberOrderedForm as NOF
+
+    p = common.P1
+    modes = [dict(kind="boson", name="a", lo=0, hi=7)]
+    ops = sympy_ops(modes)
+    states = states_of(modes)
+    # a^dagger^2 (N+2)^-1 a^2  =  N - 1 on n >= 2 and 0 below; the library returns N - 1 everywhere
+    tree = ("mul", [("pow", ("gen", 0, 1), 2), ("fn", "rat", 0, 1), ("pow", ("gen", 0, 0), 2)])
+    x = NOF.from_expr(to_sympy(tree, ops, modes), operators=ops)
+    objs = [nof_record(x, ops, modes, states, p)]
+    checks = [dict(kind="denote", z=1, tree=1, x=0, y=0, k=0, margin=4)]
+    ses = dict(sid=sid, modes=[dict(kind=m["kind"], lo=m["lo"], hi=m["hi"]) for m in modes],
+               states=[list(s_) for s_ in states], strides=[1], objs=objs,
+               trees=[normalise(tree, modes, states, p)], checks=checks)
+    meta = dict(modes=[("boson", "a")], expressions=[str(to_sympy(tree, ops, modes))], checks=["denote"],
+                rational_with_ladder=[0], witness=True)
+    return ses, meta
+
+
+def match_known_algebra(meta, fails, kf):
+    for f in kf.get("findings", []):
+        if f.get("property") == "C08" and f.get("matcher") == "pole_cancellation":
+            # identified by the INPUT class: a rational function of N_i next to ladder operators of mode i;
+            # sums, differences and adjoints never shift a coefficient and stay enforced
+            if meta.get("rational_with_ladder") and all(c in ("C08.prod", "C08.pow", "C08.eq", "C08.denote")
+                                                        for c, _ in fails):
+                return f["what"]
+    return None
 
 
 def match_known_crash(c, kf):
